@@ -1,6 +1,6 @@
 (* Codec/CodecInstances2.v — decode-side lemmas (CodecSound.v) at the generated schemas. *)
 From Coq Require Import Arith PeanoNat.
-From FV Require Export Codec.CodecSound Codec.CodecInstances.
+From FV Require Export Codec.CodecSound Codec.CodecTotal Codec.CodecInstances.
 Open Scope N_scope.
 
 (* the types C02 names: what peers and DA consumers decode *)
@@ -37,3 +37,9 @@ Definition ex_dirty_input : bytes :=
 Example ex_decodes :
   exists v rest, dec L S_Input (ex_dirty_input ++ [1; 2; 3]) = Ok (v, rest) /\ rest = [1; 2; 3].
 Proof. eexists. eexists. vm_compute. split; reflexivity. Qed.
+
+(* every outcome of the model decoder is Ok or a Rust error value (never the model-only
+   ModelStuck): the model is total on byte strings *)
+Lemma inst_dec_total t b : is_codec_type t -> wf_bytes b = true ->
+  (exists v rest, dec L t b = Ok (v, rest)) \/ (exists e, dec L t b = Err e /\ e <> ModelStuck).
+Proof. intros Ht Hw. apply (dec_total L L_lt); auto using codec_type_ok. Qed.
